@@ -454,6 +454,9 @@ class UTPM(Ring, RawAlgorithmsMixIn):
 
     def __pow__(self,r):
         if isinstance(r, UTPM):
+            if numpy.iscomplexobj(r.data) and not numpy.iscomplexobj(self.data):
+                # the principal value: log of a negative real base is complex
+                return UTPM.exp(UTPM.log(UTPM(self.data.astype(r.data.dtype)))*r)
             return UTPM.exp(UTPM.log(self)*r)
         else:
             x_data = self.data
@@ -462,7 +465,7 @@ class UTPM(Ring, RawAlgorithmsMixIn):
             return self.__class__(y_data)
 
     def __rpow__(self,r):
-        if isinstance(r, (numpy.number, numpy.bool_, numpy.ndarray)) and numpy.asarray(r).dtype.kind in 'fciub':
+        if isinstance(r, (int, float, complex, numpy.number, numpy.bool_, numpy.ndarray)) and numpy.asarray(r).dtype.kind in 'fciub':
             # a base of lower precision than the polynomial (numpy.float32(2.5)**x, numpy.uint8(3)**x: numpy.log
             # of a small integer type is computed in half precision) is promoted before its logarithm is taken,
             # like numpy promotes it in r**x_0
